@@ -384,7 +384,13 @@ fn parent(tier: &str, part_out: &str, replacements: u64) -> i32 {
                 continue;
             },
             None => {
-                machinery.push(format!("{} (bound {}): child gave no result (status {:?})", w.name, b, out.status.code()));
+                // the child died without a result (a signal: the rewritten copy misbehaves under loom's runtime,
+                // e.g. its own panic hook or unwinding inside a loom thread): inconclusive, not a verdict
+                inconclusive += 1;
+                rows.push(format!(
+                    "{{\"workload\": {}, \"threads\": {}, \"preemption_bound\": {}, \"iterations\": 0, \"outcome\": \"inconclusive\", \"capped\": false, \"detail\": \"the child process ended without a result (status {:?})\", \"wall_s\": 0}}",
+                    esc(w.name), w.threads, esc(b), out.status.code()
+                ));
                 continue;
             },
         };
@@ -438,6 +444,10 @@ fn parent(tier: &str, part_out: &str, replacements: u64) -> i32 {
     if let Err(e) = std::fs::write(part_out, part) {
         println!("MACHINERY-ERROR loom pass: cannot write {}: {}", part_out, e);
         return 2;
+    }
+    if !rows.is_empty() && inconclusive as usize * 2 > rows.len() {
+        println!("C15 loom pass ({}): most runs were inconclusive; the pass is not applicable to this tree", tier);
+        return 3;
     }
     println!(
         "C15 loom pass ({}): workload runs={} iterations={} violations={} inconclusive={} capped={} replacements={} wall={:.1}s",
